@@ -30,6 +30,14 @@ func init() {
 }
 
 func init() {
+	// C19: an accepted RetryTime takes effect as documented (zero: no retries) whenever it is set
+	vexplore.Register("C19", func(tier string) []*vexplore.Scenario {
+		return []*vexplore.Scenario{{Name: "retry-time-set-with-a-request-outstanding-hist-D4", Mode: "hist", Reset: kit.ResetGlobals, Body: func() { histRetune(4, 10*time.Second) },
+			NeedCounters: []string{"retry-time-changed-with-a-request-outstanding"}}}
+	})
+}
+
+func init() {
 	vexplore.Register("C04", func(tier string) []*vexplore.Scenario {
 		d := 5
 		if tier == "thorough" {
